@@ -32,6 +32,8 @@ trait Codec<'a> {
     /// arena reads from a reader that delivers in short pieces with EINTR in between, two attempts per call; the caller
     /// retries an Interrupted error and goes on after a short count, until the piece is through
     fn feed_flaky(&mut self, d: &[u8], sched: Vec<i64>) -> Result<(), String>;
+    /// an arena read of `count` > 0 bytes from a reader that is at end of file: delivers nothing, changes nothing
+    fn feed_eof(&mut self) -> Result<(), String>;
     /// read_n now, feed later (a producer that reads ahead of the codec)
     fn read_ahead(&mut self, d: &[u8]) -> Result<AnchoredSlice, String>;
     fn feed_held(&mut self, a: AnchoredSlice) -> Result<(), String>;
@@ -50,7 +52,7 @@ fn estr<E: std::fmt::Debug>(e: E) -> String {
 }
 
 macro_rules! impl_encoder {
-    ($t:ty, $read:expr) => {
+    ($t:ty, $read:expr, $eof:expr) => {
         impl<'a> Codec<'a> for $t {
             fn consumer(&mut self) -> ConsumingIovec<'_> {
                 <$t>::consumer(self)
@@ -73,6 +75,9 @@ macro_rules! impl_encoder {
             }
             fn feed_read(&mut self, d: &[u8]) -> Result<(), String> {
                 $read(self, d)
+            }
+            fn feed_eof(&mut self) -> Result<(), String> {
+                $eof(self)
             }
             fn feed_flaky(&mut self, d: &[u8], sched: Vec<i64>) -> Result<(), String> {
                 let mut rd = crate::stream::ScriptReader { data: d, pos: 0, sched, idx: 0, calls: 0 };
@@ -110,19 +115,34 @@ macro_rules! impl_encoder {
     };
 }
 
-impl_encoder!(Encoder<'a>, |this: &mut Encoder<'a>, d: &[u8]| -> Result<(), String> {
-    let n = this.encode_read(d, d.len(), NonZeroUsize::MAX).map_err(estr)?;
-    if n != d.len() {
-        return Err("harness: encode_read short".into());
+impl_encoder!(
+    Encoder<'a>,
+    |this: &mut Encoder<'a>, d: &[u8]| -> Result<(), String> {
+        let n = this.encode_read(d, d.len(), NonZeroUsize::MAX).map_err(estr)?;
+        if n != d.len() {
+            return Err("harness: encode_read short".into());
+        }
+        Ok(())
+    },
+    |this: &mut Encoder<'a>| -> Result<(), String> {
+        match this.encode_read(&b""[..], 7, NonZeroUsize::MAX) {
+            Ok(0) => Ok(()),
+            Ok(_) => Err("harness: bytes from an empty reader".into()),
+            Err(e) => Err(estr(e)),
+        }
     }
-    Ok(())
-});
-impl_encoder!(LimitEncoder<'a>, |this: &mut LimitEncoder<'a>, d: &[u8]| -> Result<(), String> {
-    this.feed_anchored(d)
-});
+);
+impl_encoder!(
+    LimitEncoder<'a>,
+    |this: &mut LimitEncoder<'a>, d: &[u8]| -> Result<(), String> { this.feed_anchored(d) },
+    |this: &mut LimitEncoder<'a>| -> Result<(), String> {
+        let a = this.read_n(&b""[..], 7, NonZeroUsize::MAX).map_err(estr)?;
+        this.feed_held(a)
+    }
+);
 
 macro_rules! impl_decoder {
-    ($t:ty, $read:expr, $take:expr) => {
+    ($t:ty, $read:expr, $take:expr, $eof:expr) => {
         impl<'a> Codec<'a> for $t {
             fn consumer(&mut self) -> ConsumingIovec<'_> {
                 <$t>::consumer(self)
@@ -142,6 +162,9 @@ macro_rules! impl_decoder {
             }
             fn feed_read(&mut self, d: &[u8]) -> Result<(), String> {
                 $read(self, d)
+            }
+            fn feed_eof(&mut self) -> Result<(), String> {
+                $eof(self)
             }
             fn feed_flaky(&mut self, d: &[u8], sched: Vec<i64>) -> Result<(), String> {
                 let mut rd = crate::stream::ScriptReader { data: d, pos: 0, sched, idx: 0, calls: 0 };
@@ -183,12 +206,23 @@ macro_rules! impl_decoder {
 impl_decoder!(
     Decoder<'a>,
     |this: &mut Decoder<'a>, d: &[u8]| -> Result<(), String> { this.decode_read(d, d.len(), NonZeroUsize::MAX).map(|_| ()).map_err(estr) },
-    |this: Decoder<'a>| -> Result<OwningIovec<'a>, String> { Ok(this.take_iovec()) }
+    |this: Decoder<'a>| -> Result<OwningIovec<'a>, String> { Ok(this.take_iovec()) },
+    |this: &mut Decoder<'a>| -> Result<(), String> {
+        match this.decode_read(&b""[..], 7, NonZeroUsize::MAX) {
+            Ok(0) => Ok(()),
+            Ok(_) => Err("harness: bytes from an empty reader".into()),
+            Err(e) => Err(estr(e)),
+        }
+    }
 );
 impl_decoder!(
     LimitDecoder<'a>,
     |this: &mut LimitDecoder<'a>, d: &[u8]| -> Result<(), String> { this.feed_anchored(d) },
-    |_this: LimitDecoder<'a>| -> Result<OwningIovec<'a>, String> { Err("harness: LimitDecoder has no take_iovec".into()) }
+    |_this: LimitDecoder<'a>| -> Result<OwningIovec<'a>, String> { Err("harness: LimitDecoder has no take_iovec".into()) },
+    |this: &mut LimitDecoder<'a>| -> Result<(), String> {
+        let a = this.read_n(&b""[..], 7, NonZeroUsize::MAX).map_err(estr)?;
+        this.feed_held(a)
+    }
 );
 
 const PRE_FILL: u8 = 0xAB;
@@ -345,6 +379,7 @@ fn run_phase<'a, C: Codec<'a>>(
                         "read" => c.feed_read(piece),
                         "foreign" => c.feed_foreign(piece),
                         "shared" => c.feed_from(shared.get_or_insert_with(ByteArena::new), piece),
+                        "eof" => c.feed_eof(),
                         "split" => {
                             // an arena read split in two: the first half goes in as an AnchoredSlice, the second by copy
                             let a = c.read_ahead(piece)?;
